@@ -54,6 +54,34 @@ inductive Balanced : List (Op α) → Prop where
   | form (m : Option (Matrix α)) (body rest : List (Op α)) : Balanced body → Balanced rest →
       Balanced (Op.form m body :: rest)
 
+omit [DecidableEq α] [LT α] [DecidableLT α] in
+/-- **`AdvanceText` pre-multiplies**: `Tm := T(tx,0) × Tm` -/
+theorem advanceText_tm (s : State α) (tx : α) :
+    (s.advanceText tx).cur.text.tm = (Matrix.translate tx 0).mul s.cur.text.tm := by
+  apply Matrix.ext' <;> simp only [State.advanceText, State.mapText, Matrix.mul, Matrix.translate] <;> grind
+
+omit [Lean.Grind.CommRing α] [DecidableEq α] [LT α] [DecidableLT α] in
+theorem mapText_stack (s : State α) (f : TextState α → TextState α) :
+    (s.mapText f).stack = s.stack ∧ (s.mapText f).xdepth = s.xdepth ∧ (s.mapText f).cur.ctm = s.cur.ctm :=
+  ⟨rfl, rfl, rfl⟩
+
+/-- a `TJ` array touches neither the stack, the nesting depth nor the CTM -/
+theorem showTextArray_frame (adv : Adv α) (items : List (TJItem α)) (s : State α) :
+    (showTextArray adv items s).1.stack = s.stack ∧ (showTextArray adv items s).1.xdepth = s.xdepth ∧
+      (showTextArray adv items s).1.cur.ctm = s.cur.ctm := by
+  induction items generalizing s with
+  | nil => exact ⟨rfl, rfl, rfl⟩
+  | cons it rest ih =>
+    cases it with
+    | str sid =>
+      simp only [showTextArray]
+      obtain ⟨h1, h2, h3⟩ := ih (showText adv sid s).1
+      exact ⟨h1, h2, h3⟩
+    | num v =>
+      simp only [showTextArray]
+      obtain ⟨h1, h2, h3⟩ := ih (s.advanceText (adv s.cur.text (.num v)))
+      exact ⟨h1, h2, h3⟩
+
 /-- a plain operator never fails and never touches the stack or the nesting depth -/
 theorem stepBasic_plain (adv : Adv α) (op : Op α) (h : op.plain = true) (s : State α) :
     (stepBasic adv op s).2.2 = false ∧ (stepBasic adv op s).1.stack = s.stack ∧
@@ -62,7 +90,7 @@ theorem stepBasic_plain (adv : Adv α) (op : Op α) (h : op.plain = true) (s : S
     simp [stepBasic, State.transform, State.beginText, State.mapText, State.setFont,
       State.setTextMatrix, State.translateText, State.translateTextSetLeading, State.setLeading,
       State.nextLine, State.setCharSpacing, State.setWordSpacing, State.setHorizontalScaling,
-      showText]
+      State.setTextRise, State.advanceText, showText, showTextArray_frame]
 
 theorem step_plain (adv : Adv α) (op : Op α) (h : op.plain = true) (s : State α) :
     step adv op s = stepBasic adv op s := by
